@@ -193,7 +193,12 @@ impl MaxCharsCommandSizeLimiter {
             })
             .sum();
 
-        let mut limiter = Self::new(arg_max - ARG_HEADROOM - env_size);
+        // Besides argv and envp the kernel copies the path of the executable
+        // itself onto the new stack; it can be up to PATH_MAX bytes long and is
+        // not known before the PATH lookup, so reserve room for the worst case.
+        const EXECUTABLE_PATH_RESERVE: usize = uucore::libc::PATH_MAX as usize;
+
+        let mut limiter = Self::new(arg_max - ARG_HEADROOM - EXECUTABLE_PATH_RESERVE - env_size);
         limiter.per_arg_overhead = POINTER_SIZE;
         // Linux refuses any single argument longer than MAX_ARG_STRLEN (32 pages).
         #[cfg(target_os = "linux")]
